@@ -63,6 +63,13 @@ mut("tmp-scratch-attr", ["C14"], "ThurstoneMostellerPart.rate keeps tau^2 in an 
     [(TMP, "        tau_squared = tau * tau\n", "        tau_squared = tau * tau\n        self._tau_squared = tau_squared\n"),
      (TMP, "                    player_original = original_teams[team_index][player_index]\n                    if player.sigma <= player_original.sigma:",
       "                    player_original = original_teams[team_index][player_index]\n                    if self._tau_squared == 0.0:\n                        pass\n                    elif player.sigma <= player_original.sigma:")])
+mut("tmp-scratch-attr-restored", ["C14"], "ThurstoneMostellerPart.rate parks tau^2 in an instance attribute (initialised in __init__, reset before returning) and reads it back in the limit_sigma step",
+    "two threads inside rate() on one model at the same time with different per-call tau, one of them with limit_sigma; invisible to any sequential history and to before/after attribute snapshots",
+    [(TMP, "        self.tau: float = float(tau)\n        self.limit_sigma: bool = limit_sigma\n", "        self.tau: float = float(tau)\n        self.limit_sigma: bool = limit_sigma\n        self._tau_squared: float = 0.0\n"),
+     (TMP, "        tau_squared = tau * tau\n", "        tau_squared = tau * tau\n        self._tau_squared = tau_squared\n"),
+     (TMP, "                    player_original = original_teams[team_index][player_index]\n                    if player.sigma <= player_original.sigma:",
+      "                    player_original = original_teams[team_index][player_index]\n                    if self._tau_squared == 0.0:\n                        pass\n                    elif player.sigma <= player_original.sigma:"),
+     (TMP, "                final_result.append(final_team)\n        return final_result", "                final_result.append(final_team)\n        self._tau_squared = 0.0\n        return final_result")])
 mut("btp-share-sigma-big-teams", ["C01", "C05"], "BradleyTerryPart: members of teams with more than 3 players share omega by sigma instead of sigma^2", "a team of >= 4 players with unequal sigmas under BT-part",
     [(BTP, "                mu += (sigma**2 / team_i.sigma_squared) * i_omega\n", "                if len(team_i.team) > 3:\n                    mu += (sigma / sum(p.sigma for p in team_i.team)) * i_omega\n                else:\n                    mu += (sigma**2 / team_i.sigma_squared) * i_omega\n")])
 mut("pl-scores-validated-late", ["C13"], "PlackettLuce.rate validates the length of scores only after the tau inflation has modified the ratings", "scores of the wrong length",
@@ -70,6 +77,11 @@ mut("pl-scores-validated-late", ["C13"], "PlackettLuce.rate validates the length
      (PL, "        # Convert Score to Ranks\n", "        if scores and len(scores) != len(teams):\n            raise ValueError(\n                f\"Argument 'scores' must have the same number of elements as 'teams', \"\n                f\"not {len(scores)}.\"\n            )\n\n        # Convert Score to Ranks\n")])
 mut("tmf-gamma-wrong-team-count", ["C01"], "ThurstoneMostellerFull passes the number of opponents instead of the number of teams as k to gamma", "a custom gamma that uses k",
     [(TMF, "                gamma_value = self.gamma(\n                    c_iq,\n                    len(team_ratings),", "                gamma_value = self.gamma(\n                    c_iq,\n                    len(team_ratings) - 1,")])
+
+
+# planned mutants that the repository's own 101 tests already catch: not kept as seeded changes
+CAUGHT_BY_SUITE = {"btf-predict-draw-denominator", "btf-rating-or-default", "btf-tie-score", "btp-le-is-lt", "pl-scores-validated-late", "pl-tie-divisor",
+                   "tmp-limit-vs-sorted-prior", "w-guard-zero"}
 
 
 def main():
@@ -80,6 +92,8 @@ def main():
     subprocess.run(["git", "-C", "/repo", "worktree", "add", "-q", "--detach", wt, "HEAD"], check=True)
     try:
         for name, props, summary, needs, edits in M:
+            if name in CAUGHT_BY_SUITE:
+                continue
             subprocess.run(["git", "-C", wt, "checkout", "-q", "--", "."], check=True)
             okay = True
             for f, old, new in edits:
